@@ -1,6 +1,7 @@
 package main
 
 import (
+	"fmt"
 	"go/ast"
 	"go/types"
 	"strings"
@@ -204,4 +205,76 @@ func c08ReceiverNames(c *Ctx, p *Prog, pks ...*packages.Package) {
 		}
 	}
 	c.Min(rule, "reads of a receiver's first name in the printers", n, 2)
+}
+
+// C08/C07 rule literal-start-matches-opener (added after probing: `println(“abc")` — a string opened by the full-width
+// quote, which the scanner accepts — was cut at `offset - 1`, one *byte* before the body, in the middle of the three
+// bytes of the quote: the literal held invalid UTF-8, the program printed an empty line and the formatted file did not
+// parse). A scan function that is called from a case clause listing a rune wider than one byte, after that rune has
+// been consumed, does not compute the literal's start as `offset - <constant>`.
+func c08LiteralStart(c *Ctx, p *Prog, pk *packages.Package) {
+	const rule = "literal-start-matches-opener"
+	if pk == nil {
+		return
+	}
+	info := pk.TypesInfo
+	decls := AllFuncDecls(pk)
+	scan := decls["Scanner.Scan"]
+	if scan == nil || scan.Body == nil {
+		c.Undecided(rule, "anchor:Scanner.Scan", "", "method not found")
+		return
+	}
+	n := 0
+	ast.Inspect(scan.Body, func(m ast.Node) bool {
+		cc, ok := m.(*ast.CaseClause)
+		if !ok {
+			return true
+		}
+		wide := ""
+		for _, e := range cc.List {
+			if tv, ok := info.Types[e]; ok && tv.Value != nil {
+				if lit, ok := e.(*ast.BasicLit); ok && strings.HasPrefix(lit.Value, "'") && len(lit.Value) > 3 && lit.Value[1] != '\\' {
+					wide = lit.Value
+				}
+			}
+		}
+		if wide == "" {
+			return true
+		}
+		for _, st := range cc.Body {
+			ast.Inspect(st, func(q ast.Node) bool {
+				call, ok := q.(*ast.CallExpr)
+				if !ok {
+					return true
+				}
+				fn := CalleeOf(info, call)
+				if fn == nil || fn.Pkg() != pk.Types || !strings.HasPrefix(fn.Name(), "scan") {
+					return true
+				}
+				fd := decls[funcKey(fn)]
+				if fd == nil || fd.Body == nil {
+					return true
+				}
+				n++
+				bad := ""
+				ast.Inspect(fd.Body, func(r ast.Node) bool {
+					be, ok := r.(*ast.BinaryExpr)
+					if !ok || be.Op.String() != "-" {
+						return true
+					}
+					if se, ok := be.X.(*ast.SelectorExpr); ok && se.Sel.Name == "offset" {
+						if tv, ok := info.Types[be.Y]; ok && tv.Value != nil && bad == "" {
+							bad = types.ExprString(be)
+						}
+					}
+					return true
+				})
+				c.Check(bad == "", rule, "Scanner.Scan case "+wide+" -> "+fn.Name(), p.Pos(fd.Pos()), "the start is computed from the opener's width",
+					fn.Name()+" computes the literal's start as `"+bad+"` although it is also entered after the "+fmt.Sprint(len(strings.Trim(wide, "'")))+"-byte opener "+wide+": the literal begins in the middle of that rune — invalid UTF-8 in the syntax tree, a wrong value at run time, and formatted output that does not parse")
+				return true
+			})
+		}
+		return true
+	})
+	c.Min(rule, "scan functions entered after a multi-byte opener", n, 2)
 }
